@@ -58,6 +58,8 @@ def _talk(self):
         op, arg = step[0], step[1] if len(step) > 1 else None
         if op == 'info':
             labtech.logger.info(arg)
+        elif op == 'infochild':
+            labtech.logger.getChild('sub').info(arg)
         elif op == 'warn':
             labtech.logger.warning(arg)
         elif op == 'out':
@@ -160,6 +162,11 @@ class Shade(enum.Enum):
     DARK = 2
 
 
+class Heavy(enum.Enum):            # members wrap values that are neither JSON nor hashable-by-value across sessions: only the name counts
+    BIG = frozenset({1, 2})
+    SMALL = frozenset({3})
+
+
 class Level(enum.IntEnum):          # members compare equal to plain ints
     ONE = 1
     TWO = 2
@@ -220,6 +227,7 @@ class _CtxMixin:
 
 
 TCtxI = make_type('TCtxI', cache='default', max_parallel=None, bases=(_CtxMixin,))
+TCtxNone = make_type('TCtxNone', cache='default', max_parallel=None, filter_context=lambda self, context: {})    # asks for nothing
 def _rw_post_init(self):
     # a post_init that canonicalises one of the task's own parameters (the cache key was computed from what was given)
     object.__setattr__(self, 'beh', self.beh.strip().lower())
@@ -340,6 +348,7 @@ VDep = labtech.task(type('VDep', (), {'__annotations__': {'x': Any}, 'run': _vde
 NestA_V2 = _nested_type('NestA')
 NestB_V2 = _nested_type('NestB')
 V0 = make_vtype('V0', [])                        # no parameters at all
+VUnder = make_vtype('VUnder', ['_hidden', 'x_'])   # parameter names with underscores
 
 
 def _make_inheriting():
